@@ -94,18 +94,18 @@ static void usage(void)
 static char *replace_str(char *str, char *orig, char *rep)
 {
   static char buffer[1024];
+  char tmp[sizeof(buffer)]; /* str can be the static buffer of a previous call */
   char *p;
 
   if(!(p = strstr(str, orig)))
     return str;
 
-  if ((size_t)(p-str) >= sizeof(buffer))
+  if ((size_t)(p-str) >= sizeof(tmp))
     return str; /* does not fit into the buffer */
 
-  strncpy(buffer, str, p-str);
-  buffer[p-str] = '\0';
-
-  snprintf(buffer+(p-str), sizeof(buffer)-(p-str), "%s%s", rep, p+strlen(orig));
+  memcpy(tmp, str, p-str);
+  snprintf(tmp+(p-str), sizeof(tmp)-(p-str), "%s%s", rep, p+strlen(orig));
+  memcpy(buffer, tmp, sizeof(buffer));
 
   return buffer;
 }
